@@ -46,6 +46,7 @@ type TierSpec struct {
 	MaxPaths     int            `json:"maxPaths"`
 	MaxSteps     int            `json:"maxSteps"`
 	MaxDecisions int            `json:"maxDecisions"`
+	MaxWallS     int            `json:"maxWallS"`
 }
 
 type Violation struct {
@@ -64,6 +65,7 @@ type LemmaRun struct {
 	MaxPaths       int
 	MaxSteps       int
 	MaxDecisions   int
+	MaxWallS       float64
 	NondetMapOrder bool
 	YieldAtGo      bool
 	Known          map[string]string // finding id -> status
@@ -166,6 +168,13 @@ func newLemmaRun(spec *LemmaSpec, tier string, known map[string]string) *LemmaRu
 	}
 	if l.MaxDecisions == 0 {
 		l.MaxDecisions = 4000
+	}
+	l.MaxWallS = float64(ts.MaxWallS)
+	if l.MaxWallS == 0 {
+		l.MaxWallS = 900
+		if tier == "thorough" {
+			l.MaxWallS = 3600
+		}
 	}
 	if b, _ := spec.Opts["nondetMapOrder"].(bool); b {
 		l.NondetMapOrder = true
@@ -325,7 +334,10 @@ func (l *LemmaRun) explore(ws []*worker, entry *ssa.Function) {
 					l.cond.Broadcast()
 					return
 				}
-				if l.Paths+l.active >= l.MaxPaths {
+				if l.Paths+l.active >= l.MaxPaths || time.Since(t0).Seconds() > l.MaxWallS {
+					if time.Since(t0).Seconds() > l.MaxWallS {
+						l.Inconcl[fmt.Sprintf("wall-clock budget (%.0fs) exhausted with %d prefixes pending", l.MaxWallS, len(l.stack))]++
+					}
 					l.BudgetHit = true
 					l.stopped = true
 					l.mu.Unlock()
